@@ -293,8 +293,26 @@ def i2(prog, ctx):
         if "." not in hname and any(isinstance(c, ast.Call) and (call_name(c) or "").endswith(".region") for c in ast.walk(hf)):
             sw |= {dotted(c.args[0]) for c in ast.walk(hf) if isinstance(c, ast.Call) and isinstance(c.func, ast.Attribute)
                    and c.func.attr == "startswith" and c.args}
+    # a prefix may be a parameter whose value is the constant unless a caller says otherwise: resolve it when no caller does
+    params_ = [a.arg for a in init.args.args]
+    defaults_ = dict(zip(params_[len(params_) - len(init.args.defaults):], init.args.defaults))
+    ctor_calls = [c for _m, _q, f_ in prog.all_functions() for c in walk_no_nested(f_)
+                  if isinstance(c, ast.Call) and (call_name(c) or "").split(".")[-1] == "ExcludingIdDistributor"]
+    undecided_prefix = []
+    for name_ in [x for x in list(sw) if x and "." not in x and x in params_]:
+        vals = [v for v in [defaults_.get(name_)] if v is not None and not (isinstance(v, ast.Constant) and v.value is None)]
+        vals += [st_.value for st_ in walk_no_nested(init) if isinstance(st_, ast.Assign) and any(src(t) == name_ for t in st_.targets)]
+        texts = {dotted(v) for v in vals}
+        passed = any(len(c.args) > params_.index(name_) - 1 or any(k.arg == name_ for k in c.keywords) for c in ctor_calls)
+        if len(texts) == 1 and None not in texts and not passed:
+            sw.add(texts.pop())
+        else:
+            undecided_prefix.append(name_)
     for const in ("TranscriptNaming.novel_gene_prefix", "TranscriptNaming.transcript_prefix"):
-        if const not in sw:
+        if const not in sw and undecided_prefix:
+            ctx.undecided("I2", init, init._qualname, "the prefix by which reserved ids are recognised is the parameter %s, whose value is not "
+                          "fixed by the constructor itself" % undecided_prefix)
+        elif const not in sw:
             ctx.fail("I2", init, init._qualname, "startswith(...)",
                      "forbidden ids are not collected with the %s constant that is used to format new ids" % const)
         else:
